@@ -266,6 +266,9 @@ def validate_trace(spec_dir, module, cfg, trace_path, nshards=16, xmx="3g", time
             r = run(spec_dir, module, cfg, workers=1, xmx=xmx, timeout=timeout, env=e)
             return (fn, linemap, r)
 
+        if not shards:          # nothing was recorded (e.g. the model stage already failed and produced no behaviours)
+            v.wall = time.time() - t0
+            return v
         with ThreadPoolExecutor(max_workers=min(16, len(shards))) as ex:
             results = list(ex.map(one, shards))
         for fn, linemap, r in results:
